@@ -19,6 +19,14 @@ Definition E_UNBOUND : Z := 2%Z.     (* UnboundLocalError: expd read before assi
 Definition E_RECURSION : Z := 3%Z.   (* RecursionError raised by krylov_exp *)
 Definition E_INDEX : Z := 4%Z.       (* IndexError on lanczos_vectors[k] *)
 
+(* which variant of the convergence test the source has (chosen by tools/props/c07.py from the source
+   text; the correspondence checks the choice):
+     Original     err2 uses |op(v_j)|                                   (upstream)
+     Confirmed    + confirmation with |op(v_{j+1})|, same formula       (proposed_fixes/converged-inaccurate.diff)
+     ConfirmedMax + the confirmation takes err2 when err1 < err2        (proposed_fixes/converged-inaccurate-followup.diff) *)
+Inductive variant := Original | Confirmed | ConfirmedMax.
+Definition is_fixed (v : variant) : bool := match v with Original => false | _ => true end.
+
 Record kres := MkKres { k_converged : bool; k_happy : bool; k_iters : nat }.
 
 (* KrylovExpResult.__init__: assert (not happy_breakdown) or converged *)
@@ -29,19 +37,24 @@ Definition mk_result (c h : bool) (it : nat) : res kres :=
 Section Control.
 Variable A : Type.
 Variable ar : Arith A.
-(* [fixed] selects the variant of the source: false = the original estimate (err2 uses |op(v_j)|),
-   true = with the confirmation step of proposed_fixes/converged-inaccurate.diff, where
-   err2c j = abs(expd[j+2,0] * |op(v_{j+1})|) is the additional oracle value.  tools/props/c07.py
-   chooses the variant from the source text and the correspondence checks the choice. *)
-Variable fixed : bool.
+(* [fixed] selects the variant of the source (see [variant]); err2c j = abs(expd[j+2,0] * |op(v_{j+1})|) is
+   the additional oracle value of the confirmation step.  tools/props/c07.py chooses the variant from the
+   source text and the correspondence checks the choice. *)
+Variable fixed : variant.
 Variables n2 err1 err2 err2c : nat -> A.
 Variables norm_tol exp_tol : A.
 
 (* err = err1 if err1 < err2 else (err1 * err2 / (err1 - err2)) *)
 Definition err_formula (e1 e2 : A) : A :=
   if a_ltb ar e1 e2 then e1 else a_div ar (a_mul ar e1 e2) (a_sub ar e1 e2).
+(* confirmed = (err1 | err2) if err1 < err2 else (err1 * err2 / (err1 - err2)) *)
+Definition confirm_formula (e1 e2 : A) : A :=
+  match fixed with
+  | ConfirmedMax => if a_ltb ar e1 e2 then e2 else a_div ar (a_mul ar e1 e2) (a_sub ar e1 e2)
+  | _ => err_formula e1 e2
+  end.
 Definition err_of (j : nat) : A := err_formula (err1 j) (err2 j).
-Definition confirmed_of (j : nat) : A := err_formula (err1 j) (err2c j).
+Definition confirmed_of (j : nat) : A := confirm_formula (err1 j) (err2c j).
 Definition SLACK : Z := 3%Z.
 
 Definition breakdown_at (j : nat) : bool := a_ltb ar (n2 j) norm_tol.
@@ -51,7 +64,7 @@ Definition breakdown_at (j : nat) : bool := a_ltb ar (n2 j) norm_tol.
               if err < exp_tolerance: converged *)
 Definition estimate_at (j : nat) : bool :=
   if a_ltb ar (err_of j) exp_tol then
-    if fixed then
+    if is_fixed fixed then
       if a_ltb ar (confirmed_of j) (a_mul ar (a_ofZ ar SLACK) exp_tol) then true
       else a_ltb ar (confirmed_of j) exp_tol
     else true
@@ -176,11 +189,11 @@ Definition body (herm : bool) (st : kstate) (j : nat) : res body_out :=
   end.
 
 (* the convergence test of one iteration (see Control.estimate_at) *)
-Definition b_estimate (fixed : bool) (exp_tol : A) (b : body_out) : bool :=
+Definition b_estimate (fixed : variant) (exp_tol : A) (b : body_out) : bool :=
   if a_ltb ar (err_formula ar (b_err1 b) (b_err2 b)) exp_tol then
-    if fixed then
-      if a_ltb ar (err_formula ar (b_err1 b) (b_err2c b)) (a_mul ar (a_ofZ ar SLACK) exp_tol) then true
-      else a_ltb ar (err_formula ar (b_err1 b) (b_err2c b)) exp_tol
+    if is_fixed fixed then
+      if a_ltb ar (confirm_formula ar fixed (b_err1 b) (b_err2c b)) (a_mul ar (a_ofZ ar SLACK) exp_tol) then true
+      else a_ltb ar (confirm_formula ar fixed (b_err1 b) (b_err2c b)) exp_tol
     else true
   else false.
 
@@ -191,7 +204,8 @@ Definition final_vec (st : kstate) : res V :=
   end.
 
 Section Loop.
-Variables (fixed herm : bool) (norm_tol exp_tol : A) (initial_norm : A).
+Variable fixed : variant.
+Variables (herm : bool) (norm_tol exp_tol : A) (initial_norm : A).
 Definition scale0 (v : V) : V := vscale (ofreal initial_norm) v.
 
 Fixpoint floop (fuel j : nat) (st : kstate) : res (kres * V * kstate) :=
@@ -211,7 +225,7 @@ Fixpoint floop (fuel j : nat) (st : kstate) : res (kres * V * kstate) :=
 End Loop.
 
 (* krylov_exp_impl(op, v, is_hermitian, exp_tolerance, norm_tolerance, max_krylov_dim) *)
-Definition kexp_full (fixed : bool) (v : V) (herm : bool) (exp_tol norm_tol : A) (max_dim : nat)
+Definition kexp_full (fixed : variant) (v : V) (herm : bool) (exp_tol norm_tol : A) (max_dim : nat)
   : res (kres * V * kstate) :=
   let n0 := nrm v in
   floop fixed herm norm_tol exp_tol n0 max_dim 0 (MkKstate [vdiv v n0] tzero None).
@@ -273,7 +287,7 @@ Definition mexp_tab (tab : list (nat * vec)) : (nat -> nat -> C) -> nat -> nat -
 Definition tdump (T : nat -> nat -> C) (n : nat) : list C :=
   flat_map (fun r => map (fun c => T r c) (seq 0 n)) (seq 0 n).
 
-Definition kexp_float (fixed : bool) (M : list vec) (v : vec) (herm : bool) (exp_tol norm_tol : float)
+Definition kexp_float (fixed : variant) (M : list vec) (v : vec) (herm : bool) (exp_tol norm_tol : float)
     (max_dim : nat) (tab : list (nat * vec)) : (Z * (bool * (bool * nat))) * (vec * list C) :=
   match kexp_full float_arith c0 c1 cmul cofreal cabs [] vadd vsub vscale vdiv (matvec M)
                   inner nrm (mexp_tab tab) fixed v herm exp_tol norm_tol max_dim with
